@@ -85,6 +85,14 @@ func (c Case) URLPath() string {
 	return "/x"
 }
 
+// panicOp picks what the handler panics with - a string, an error value, net/http's
+// ErrAbortHandler sentinel or a run-time error (the containment clause is about any panic);
+// the choice is a function of the case so that a replay panics the same way.
+func (c Case) panicOp() string {
+	kinds := []string{"panic", "panic:err", "panic:abort", "panic:runtime"}
+	return kinds[(len(c.On)*7+len(c.Path)*3+len(c.Errors)+c.Beh.S)%len(kinds)]
+}
+
 // Script renders the behaviour of the innermost handler for verifprobe.
 func (c Case) Script() string {
 	b := c.Beh
@@ -106,13 +114,13 @@ func (c Case) Script() string {
 		}
 		return s + "ret:0"
 	case "panicbefore":
-		return "panic"
+		return c.panicOp()
 	case "panicafter":
 		s := hdr + "status:" + strconv.Itoa(b.S) + ";text:" + handlerBody + ";"
 		if b.X {
 			s += "flush;"
 		}
-		return s + "panic"
+		return s + c.panicOp()
 	}
 	return "ret:0"
 }
